@@ -305,7 +305,10 @@ func C17(tier string) int {
 			props[i] = addrProps[(i+ai)%3]
 		}
 		for ci, ch := range chains {
-			for _, lim := range limits {
+			for _, lim := range append([]int{0, -1}, limits...) {
+				if lim == -1 && ci%4 != 0 && !res.Thorough() {
+					continue // zero and negative limits both mean "unlimited"
+				}
 				for _, f := range []ap.FilterMode{ap.FilterAll, ap.FilterFirst, ap.FilterNone, ap.FilterLastInPlace, ap.FilterReverseInPlace} {
 					if (f == ap.FilterLastInPlace || f == ap.FilterReverseInPlace) && (len(addr) < 2 || (!res.Thorough() && ci%4 != 0)) {
 						continue // the in-place filters differ from the others only with two or more collections
@@ -325,7 +328,7 @@ func C17(tier string) int {
 			}
 		}
 	}
-	res.Rule = fmt.Sprintf("activities whose to/cc/audience hold every sequence of <= %d entries over {owned Collection, owned OrderedCollection, foreign collection, owned non-collection, remote actor, an owned collection on a foreign host, another tenant's collection on the local host}; reply chains of depth 0..%d through inReplyTo/object/target/tag with every embedded / dereferenced-IRI form per link, the final value owned or not, plus chains broken by a missing or unknown-type document, diamonds (one fetched or embedded value referenced on two paths of different length, the owned value below it), and chains ending in a Link-derived value (Mention named by href only; Link whose id and href disagree, the owned one being the id or only the href); depth limit %v; filter {all, first only, none, last only (filtering the slice it is handed in place), all (reversing it in place)}; delivery histories {A, AA, AB, BAA, ABA} over two local inboxes; %d histories, each a sequence of real requests on one application state; oracle: forwarded (once, on the first delivery) iff an owned (Ordered)Collection is addressed and an owned value lies within the limit; recipients are the members of exactly the collections the filter returned; payload equals the received body and is not changed after it was handed to the transport (the model keeps the very slice); the activity is recorded exactly once; plus 16 activities that have a default side effect (Create by IRI / embedded, Update, Delete, Like, Announce, Add, Remove, Follow, Accept, Reject, Undo, Block), with and without application hooks, meeting the three conditions: forwarded once, payload and recorded copy equal to the received activity; two different activities in a row on one Actor that reach one remote document at different depths (either order): each judged by its own depth; states = distinct application states reached, transitions = requests", maxAddr, maxDepth, limits, len(cases))
+	res.Rule = fmt.Sprintf("activities whose to/cc/audience hold every sequence of <= %d entries over {owned Collection, owned OrderedCollection, foreign collection, owned non-collection, remote actor, an owned collection on a foreign host, another tenant's collection on the local host}; reply chains of depth 0..%d through inReplyTo/object/target/tag with every embedded / dereferenced-IRI form per link, the final value owned or not, plus chains broken by a missing or unknown-type document, diamonds (one fetched or embedded value referenced on two paths of different length, the owned value below it), and chains ending in a Link-derived value (Mention named by href only; Link whose id and href disagree, the owned one being the id or only the href); depth limit %v and the unlimited settings 0 and -1; filter {all, first only, none, last only (filtering the slice it is handed in place), all (reversing it in place)}; delivery histories {A, AA, AB, BAA, ABA} over two local inboxes; %d histories, each a sequence of real requests on one application state; oracle: forwarded (once, on the first delivery) iff an owned (Ordered)Collection is addressed and an owned value lies within the limit; recipients are the members of exactly the collections the filter returned; payload equals the received body and is not changed after it was handed to the transport (the model keeps the very slice); the activity is recorded exactly once; plus 16 activities that have a default side effect (Create by IRI / embedded, Update, Delete, Like, Announce, Add, Remove, Follow, Accept, Reject, Undo, Block), with and without application hooks, meeting the three conditions: forwarded once, payload and recorded copy equal to the received activity; two different activities in a row on one Actor that reach one remote document at different depths (either order): each judged by its own depth; states = distinct application states reached, transitions = requests", maxAddr, maxDepth, limits, len(cases))
 	res.Assumptions = []string{"locks are counted, not blocking (a collection addressed twice is C09's known finding)", "a dereferenced document that is not JSON aborts the search with an error and is left to C11"}
 	var mu sync.Mutex
 	states := map[uint64]struct{}{}
@@ -368,7 +371,7 @@ func C17(tier string) int {
 					ownedColls = append(ownedColls, e)
 				}
 			}
-			shouldForward := len(ownedColls) > 0 && reach > 0 && reach <= c.limit
+			shouldForward := len(ownedColls) > 0 && reach > 0 && (c.limit <= 0 || reach <= c.limit)
 			var filtered []string
 			switch c.filter {
 			case ap.FilterAll:
